@@ -657,6 +657,40 @@ func c18Child(c *rt.Ctx, dir string) {
 					`{"x":` + strings.Repeat(`{"a":`, 5000) + "1" + strings.Repeat("}", 5000) + `,"value":1,"unit":"B"}`, strings.Repeat("9", 100000) + "kB", `"` + strings.Repeat("9", 100000) + `"`},
 				"uu": {strings.Repeat("f", 100000), "urn:uuid:" + strings.Repeat("0", 36)},
 			}
+			// pair entry points: very long inputs whose first difference comes after millions of equal
+			// identifiers / bytes (work and stack must stay proportional to nothing worse than the length)
+			stack := []metrics.Sample{{Name: "/memory/classes/heap/stacks:bytes"}}
+			longA := strings.Repeat("1.", 3000000)
+			pairs := [][2]string{{longA + "1", longA + "2"}, {longA + "a", longA + "a"}, {longA[:2000001], longA[:2000000] + "x"}, {strings.Repeat("a", 4000000) + "1", strings.Repeat("a", 4000000) + "02"},
+				{strings.Repeat("é", 1000000) + "a", strings.Repeat("é", 1000000) + "é"}, {strings.Repeat("0", 3000000) + "1", strings.Repeat("0", 3000000) + "2"}}
+			for _, ei := range byPkg["sem"] {
+				e := c18Entries[ei]
+				if !e.pair || e.limited {
+					continue
+				}
+				for _, pr := range pairs {
+					runtime.GC()
+					metrics.Read(sample)
+					metrics.Read(stack)
+					before, sBefore := sample[0].Value.Uint64(), stack[0].Value.Uint64()
+					c18Call(w, fl, ei, 0, pr[0], pr[1])
+					metrics.Read(sample)
+					metrics.Read(stack)
+					alloc := sample[0].Value.Uint64() - before
+					var sGrow uint64
+					if stack[0].Value.Uint64() > sBefore {
+						sGrow = stack[0].Value.Uint64() - sBefore
+					}
+					n := uint64(len(pr[0]) + len(pr[1]))
+					if bound := uint64(1<<20) + 1024*n; alloc > bound {
+						w.Fail("runaway-allocation:"+e.name, "call", rt.Args("entry", e.name, "limit_setting", 0, "a", clipStr(pr[0], 100), "b", clipStr(pr[1], 100), "len_a", len(pr[0]), "len_b", len(pr[1])), fmt.Sprintf("%d bytes allocated", alloc), fmt.Sprintf("<= %d", bound), "allocation out of proportion to the input")
+					}
+					if bound := uint64(8<<20) + 4*n; sGrow > bound {
+						w.Fail("runaway-stack:"+e.name, "call", rt.Args("entry", e.name, "limit_setting", 0, "a", clipStr(pr[0], 100), "b", clipStr(pr[1], 100), "len_a", len(pr[0]), "len_b", len(pr[1])), fmt.Sprintf("goroutine stacks grew by %d bytes", sGrow), fmt.Sprintf("<= %d (8 MiB + 4 bytes per input byte)", bound), "stack depth proportional to the input: a longer input overflows the stack, which no recover() can catch")
+					}
+					w.ClassN("long-pair-monitored-call", 1)
+				}
+			}
 			for _, pkg := range pkgs {
 				for _, ei := range byPkg[pkg] {
 					if c18Entries[ei].pair {
@@ -680,6 +714,7 @@ func c18Child(c *rt.Ctx, dir string) {
 		})
 	}()
 	c.Require("allocation-monitored-call", 100)
+	c.Require("long-pair-monitored-call", 30)
 
 	for setting := 0; setting < 4; setting++ {
 		setting := setting
